@@ -153,7 +153,9 @@ def execute(case):
     elif op == "to_dtype":
         to = case["to"]
         ck.label("to:%s->%s" % (dt, to))
-        y = lib(lambda: x.to(dtype=DT[to]))
+        dev = [None, "cpu", torch.device("cpu")][case["x"]["seed"] % 3]
+        ck.label("to:device=%s" % ("None" if dev is None else "cpu"))
+        y = lib(lambda: x.to(dtype=DT[to]) if dev is None else x.to(device=dev, dtype=DT[to]))
         if same_meta(y, "to", DT[to]):
             ref = dense([c.to(DT[to]) for c in snap])
             ck.require(core.bit_equal(dense(y.cores), ref), "to_value", "to(dtype) value differs from converting the cores")
